@@ -56,6 +56,12 @@ check("C15", "exploration", "bench+rfc_response",
       "Trusted: the reference mapping; targets with '#', asterisk/authority/relative forms are don't-care for PATH_INFO/QUERY_STRING.",
       "DESIGN.md section 3, C15")
 
+check("C08", "exploration", "bench+rfc_response",
+      "exhaustive per-mechanism product peer x allow-lists x header_map x secure_scheme_headers x ordered header sets through the real worker handle(); PROXY line x allow-list x position on 3-request keep-alive connections of every worker; all interleavings of two concurrently served connections; judged against a reference mapping",
+      "1440 gate configurations x all ordered header sets of <=2 (thorough 3) from 17 proxy-asserting / underscore / case variants; 1600 PROXY cells (5 worker+keepalive configs x 4 peers x on/off x 4 allow lists x 5 line kinds x late line); 80 two-connection schedules (all 20 merges of 3+3 requests) per async/gthread worker. Untrusted peers must see exactly the baseline environ, trusted ones the documented effect, declared addresses on every request of the connection and never on another connection.",
+      "Trusted: the reference mapping written from the settings documentation; header_map=dangerous excluded as documented-unsafe; gevent/eventlet scheduling is represented by switching connections at blocking reads.",
+      "DESIGN.md section 3, C08")
+
 ALL = ["C%02d" % i for i in range(1, 21)]
 for pid in ALL:
     if pid not in CHECKS:
